@@ -40,7 +40,12 @@ VStat(r) ==
      ELSE IF r.raised = "InsufficientDataError" THEN "InsufficientDataExactlyBelowMinimum"
      ELSE IF r.raised # "none" THEN "Total"
      ELSE IF ~r.obs.inrange THEN "PValueInUnitInterval"
-     ELSE IF r.obs.count # NumPValues(test, n, IF test = "RandomWalk" THEN r.obs.stat.J ELSE r.args.par) THEN "LadderNumberOfPValues"
+     \* RandomWalk with optional state bounds <<max_state, max_cnt, max_state_variant>>: 2 cusum values, and with >= 500 cycles one value
+     \* per non-zero state of each excursion test
+     ELSE IF test = "RandomWalk" /\ "states" \in DOMAIN r.args /\
+             r.obs.count # 2 + (IF r.obs.stat.J >= 500 THEN 2 * r.args.states[1] + 2 * r.args.states[3] ELSE 0) THEN "LadderNumberOfPValues"
+     ELSE IF ~(test = "RandomWalk" /\ "states" \in DOMAIN r.args) /\
+             r.obs.count # NumPValues(test, n, IF test = "RandomWalk" THEN r.obs.stat.J ELSE r.args.par) THEN "LadderNumberOfPValues"
      ELSE IF HasBits(r) /\ ~StatOk(r) THEN "IntegerStatistic"
      \* the block length the reference transcription of Universal used is the one of the specification's ladder
      ELSE IF test = "Universal" /\ "refL" \in DOMAIN r.obs.stat /\ r.obs.stat.refL # UniversalL(n) THEN "ReferenceLadderDisagreesWithSpec"
